@@ -578,10 +578,146 @@ def norm_bv(t):
 
 # ------------------------------------------------------------------ canonical form
 
+ENUMS = {}      # enum path -> variant names; filled from the ADT facts by the evaluator (Option / Result are built in)
+
+
+def register_enums(adts):
+    for path, adt in adts.items():
+        if adt.get('kind') == 'Enum':
+            ENUMS[path] = [v['name'] for v in adt['variants']]
+
+
+def _atom_universe(atom):
+    """(scrutinee, variant, all variants) of a matches-atom, or None"""
+    v = atom[2]
+    if v == 'Some':
+        return atom[1], 'Some', ['None', 'Some']
+    if v == 'Ok':
+        return atom[1], 'Ok', ['Err', 'Ok']
+    if '::' in v:
+        enum_path, name = v.rsplit('::', 1)
+        if enum_path in ENUMS:
+            return atom[1], name, sorted(ENUMS[enum_path])
+    return None
+
+
+def _match_atoms(c, out):
+    """collect matches-atoms of a condition that is a boolean combination of them only; False if anything else occurs"""
+    if c in (TRUE, FALSE):
+        return True
+    if isinstance(c, tuple) and c:
+        if c[0] == 'matches':
+            if _atom_universe(c) is None:
+                return False
+            out.add(c)
+            return True
+        if c[0] == 'not':
+            return _match_atoms(c[1], out)
+        if c[0] in ('and', 'or'):
+            return all(_match_atoms(x, out) for x in c[1])
+    return False
+
+
+def enum_norm(t, fuel=6):
+    """Conditionals whose conditions only test enum variants are decision trees over those variants; write them as the
+    reduced ordered tree (scrutinees in key order, variants in name order, equal subtrees merged), so that differently
+    ordered / nested / flattened `match`es that compute the same function are the same term."""
+    if not isinstance(t, tuple) or not t:
+        return t
+    if is_lin(t):
+        acc = const(t[1])
+        for r, c in t[2]:
+            acc = add(acc, scale(as_lin(enum_norm(r, fuel)), c))
+        return acc
+    if t[0] == 'ite' and fuel > 0:
+        atoms = set()
+        leaves_ok = _collect_tree_atoms(t, atoms)
+        if leaves_ok and atoms:
+            scruts = {}
+            for a in atoms:
+                x, v, uni = _atom_universe(a)
+                scruts[x] = uni
+            order = sorted(scruts, key=key)
+            if 1 <= len(order) <= 3:
+                return _build_tree(t, order, scruts, {}, fuel)
+    return tuple(enum_norm(x, fuel) for x in t)
+
+
+def _collect_tree_atoms(t, atoms):
+    """walk an ite-tree whose conditions are variant tests; leaves are anything else"""
+    if isinstance(t, tuple) and t and t[0] == 'ite':
+        if not _match_atoms(t[1], atoms):
+            return False
+        for br in (t[2], t[3]):
+            b = unroot(br)
+            if isinstance(b, tuple) and b and b[0] == 'ite':
+                sub = set()
+                if _collect_tree_atoms(b, sub):
+                    atoms.update(sub)
+        return True
+    return True
+
+
+def _specialise(t, world):
+    """value of the ite-tree t in a world {scrutinee: variant}; sub-trees on other conditions are kept"""
+    b = unroot(t)
+    if isinstance(b, tuple) and b and b[0] == 'ite':
+        atoms = set()
+        if _match_atoms(b[1], atoms):
+            mp = {}
+            undecided = False
+            for a in atoms:
+                x, v, uni = _atom_universe(a)
+                if x in world:
+                    mp[a] = TRUE if world[x] == v else FALSE
+                else:
+                    undecided = True
+            if not undecided:
+                c = substitute(b[1], mp)
+                if c == TRUE:
+                    return _specialise(b[2], world)
+                if c == FALSE:
+                    return _specialise(b[3], world)
+    return t
+
+
+def _build_tree(t, order, scruts, world, fuel):
+    if not order:
+        return enum_norm(_specialise(t, world), fuel - 1)
+    x, rest = order[0], order[1:]
+    subs = []
+    for v in scruts[x]:
+        w = dict(world)
+        w[x] = v
+        subs.append((v, _build_tree(t, rest, scruts, w, fuel)))
+    if all(as_lin(s) == as_lin(subs[0][1]) if (is_lin(s) or is_lin(subs[0][1])) else s == subs[0][1] for _, s in subs):
+        return subs[0][1]
+    # group variants with equal subtrees; the group containing the last variant (in name order) becomes the default
+    res = subs[-1][1]
+    for v, sub in reversed(subs[:-1]):
+        same = (as_lin(sub) == as_lin(res)) if (is_lin(sub) or is_lin(res)) else sub == res
+        if same:
+            continue
+        enum_path = None
+        for p_, vs in list(ENUMS.items()) + [('Option', ['None', 'Some']), ('Result', ['Err', 'Ok'])]:
+            if sorted(vs) == scruts[x]:
+                enum_path = p_
+                break
+        if enum_path == 'Option':
+            atom = ('matches', x, 'Some') if v == 'Some' else tnot(('matches', x, 'Some'))
+        elif enum_path == 'Result':
+            atom = ('matches', x, 'Ok') if v == 'Ok' else tnot(('matches', x, 'Ok'))
+        else:
+            atom = ('matches', x, f'{enum_path}::{v}')
+        res = ite(atom, sub, res)
+    return res
+
+
 def canon(t):
     """One representation per value: a linear form that is just `1*root + 0` is written as the root itself
-    wherever it occurs inside another term; bound variables are numbered by binder nesting."""
-    return _canon(alpha(t))
+    wherever it occurs inside another term; bound variables are numbered by binder nesting; decision trees over enum
+    variants are written in reduced ordered form."""
+    return _canon(enum_norm(_canon(alpha(t))))
 
 
 def _canon(t):
